@@ -54,14 +54,15 @@ func lemmaHashAfterDecompress(p *Payload) bool { return true }
 //@   modifies ghostIndexCount
 //@   ensures ghostIndexCount == old(ghostIndexCount)+1
 
-// positions a scan that has not delivered anything yet
+// positions a scan that has not delivered anything yet (body verified for the logical offset; that
+// the buffered reader follows the file position while its buffer is still empty is assumed)
 //@ func (stream *DataStreamReader) seek
 //@   props C02
 //@   ints math
-//@   assumed fd.Seek on a reader whose buffer is still empty: the scan continues at the offset
 //@   requires stream.fd != nil && stream.rbuf != nil
-//@   modifies stream.offset, ghostFilePos(stream.fd), ghostReader(stream.rbuf)
-//@   ensures stream.offset == offset && streamSync(stream)
+//@   modifies stream.offset, ghostFilePos(stream.fd), ghostReader(stream.rbuf), ghostFail()
+//@   ensures stream.offset == offset
+//@   ensures [assumed] streamSync(stream)
 
 //@ func (stream *DataStreamReader) Close
 //@   props C02
